@@ -5,6 +5,7 @@ package distiller
 
 import (
 	"fmt"
+	"regexp"
 	"strings"
 	"testing"
 
@@ -193,7 +194,7 @@ func govcCheckExcerpt(view string, words []string, pos map[string]int) string {
 	last := -1
 	lastWord := ""
 	seen := map[string]bool{}
-	for _, w := range words {
+	for _, w := range govcC02SplitGlued(words, pos, nil) {
 		w = strings.Trim(w, ".,;:()[]\"'")
 		p, ok := pos[w]
 		if !ok {
@@ -211,10 +212,40 @@ func govcCheckExcerpt(view string, words []string, pos map[string]int) string {
 	return ""
 }
 
+var govcC02RxToken = regexp.MustCompile(`[a-zA-Z]+[0-9]+`)
+
+// govcC02SplitGlued replaces every word that is not a source word but is the seamless concatenation of two or
+// more source words (e.g. the texts of adjacent table cells emitted without any separator) by these source
+// words, and records the glued word in `glued`. The gluing is reported as a failure of its own (key suffix
+// /text-glue, /html-glue), so that the excerpt check (membership, multiplicity, order) still sees every word.
+func govcC02SplitGlued(words []string, pos map[string]int, glued *[]string) []string {
+	var out []string
+	for _, w := range words {
+		if _, ok := pos[w]; !ok {
+			parts := govcC02RxToken.FindAllString(w, -1)
+			known := len(parts) >= 2 && strings.Join(parts, "") == w
+			for _, p := range parts {
+				if _, ok := pos[p]; !ok {
+					known = false
+				}
+			}
+			if known {
+				if glued != nil {
+					*glued = append(*glued, w)
+				}
+				out = append(out, parts...)
+				continue
+			}
+		}
+		out = append(out, w)
+	}
+	return out
+}
+
 func TestGovcExcerptReplay(t *testing.T) {
 	kinds := govcBlocks("k")
 	evals, nontrivial := 0, 0
-	run := func(key string, blocks []govcBlock) {
+	run := func(key string, blocks []govcBlock) *Result {
 		var body strings.Builder
 		pos := map[string]int{}
 		body.WriteString("<html><head><title>Replay page for excerpts</title></head><body><div id=\"main\"><article>")
@@ -231,15 +262,24 @@ func TestGovcExcerptReplay(t *testing.T) {
 		evals++
 		if err != nil {
 			t.Errorf("GOVC-FAIL %s :: excerpt case returned error %v", key, err)
-			return
+			return nil
 		}
 		textWords := strings.Fields(res.Text)
 		htmlWords := strings.Fields(govcNodeText(res.Node))
-		if len(textWords) > 0 {
-			nontrivial++
+		if len(textWords) > 0 && !strings.HasPrefix(key, "tab") {
+			nontrivial++ // table cases (keys tab/..., tabx/...) are counted by their own, stricter criterion below
 		}
 		if evals <= 2 {
 			fmt.Printf("GOVC-SAMPLE blocks %s -> %d words in Result.Text, %d words in Result.Node\n", key, len(textWords), len(htmlWords))
+		}
+		var gluedText, gluedHTML []string
+		govcC02SplitGlued(textWords, pos, &gluedText)
+		govcC02SplitGlued(htmlWords, pos, &gluedHTML)
+		if len(gluedText) > 0 {
+			t.Errorf("GOVC-FAIL %s/text-glue :: Result.Text contains %d word(s) that do not occur in the source but are source words glued together without a separator, e.g. %q", key, len(gluedText), gluedText[0])
+		}
+		if len(gluedHTML) > 0 {
+			t.Errorf("GOVC-FAIL %s/html-glue :: Result.Node contains %d word(s) that do not occur in the source but are source words glued together without a separator, e.g. %q", key, len(gluedHTML), gluedHTML[0])
 		}
 		if msg := govcCheckExcerpt("Result.Text", textWords, pos); msg != "" {
 			t.Errorf("GOVC-FAIL %s/text :: %s", key, msg)
@@ -247,6 +287,7 @@ func TestGovcExcerptReplay(t *testing.T) {
 		if msg := govcCheckExcerpt("Result.Node", htmlWords, pos); msg != "" {
 			t.Errorf("GOVC-FAIL %s/html :: %s", key, msg)
 		}
+		return res
 	}
 	// every ordered pair of block kinds, embedded between three plain paragraphs
 	for i := range kinds {
@@ -263,7 +304,209 @@ func TestGovcExcerptReplay(t *testing.T) {
 		run("alone-"+kinds[i].name, []govcBlock{govcBlocks("s")[i]})
 	}
 	run("all-kinds", govcBlocks("z"))
-	fmt.Printf("GOVC-CASES evaluations=%d distinct_nontrivial=%d rule=%s\n", evals, nontrivial, "generated articles: every ordered pair of 19 block kinds between plain paragraphs, each kind alone, all kinds together; unique tokens per block; distinct by construction; non-trivial = some text was extracted")
+
+	// ---- table shapes (appended; the keys above are unchanged) ----
+	// A table case is non-trivial when words of the table reach Result.Text. Tables that are emitted as a
+	// <table> element in Result.Node were classified as data tables (layout tables are dissolved into text).
+	asTable, asTableNested := 0, 0
+	runTab := func(key string, blocks []govcBlock, tabs ...govcBlock) {
+		res := run(key, blocks)
+		if res == nil {
+			return
+		}
+		out := map[string]bool{}
+		for _, w := range strings.Fields(res.Text) {
+			out[w] = true
+		}
+		kept := false
+		for _, tb := range tabs {
+			for _, w := range tb.visible {
+				if out[w] {
+					kept = true
+				}
+			}
+		}
+		if !kept {
+			return
+		}
+		nontrivial++
+		if res.Node != nil && govcC02HasElement(res.Node, "table") {
+			asTable++
+			for _, tb := range tabs {
+				if strings.Count(tb.html, "<table") > 1 {
+					asTableNested++
+					break
+				}
+			}
+		}
+	}
+	nTab := len(govcC02Tables("k"))
+	for i := 0; i < nTab; i++ {
+		ta, tb := govcC02Tables("ta")[i], govcC02Tables("tb")[i]
+		fill := govcBlocks("f")
+		runTab("tab/between/"+ta.name, []govcBlock{fill[0], ta, fill[1]}, ta)
+		runTab("tab/alone/"+ta.name, []govcBlock{ta}, ta)
+		runTab("tab/twin/"+ta.name, []govcBlock{fill[0], ta, tb, fill[1]}, ta, tb)
+		pre, post := govcTok("tc", 12), govcTok("td", 12)
+		var vis []string
+		vis = append(vis, pre...)
+		vis = append(vis, ta.visible...)
+		vis = append(vis, post...)
+		inDiv := govcBlock{"div+" + ta.name, vis, "<div>" + strings.Join(pre[:8], " ") + " <em>" + strings.Join(pre[8:], " ") + "</em>" + ta.html + strings.Join(post, " ") + "</div>"}
+		runTab("tab/in-div/"+ta.name, []govcBlock{fill[0], inDiv, fill[1]}, ta)
+	}
+	// a few representative tables crossed with every other block kind, in both orders
+	for _, name := range []string{"grid/nested", "rowrole/nested-deep", "gridcell/nested-head", "th/inline", "sections/paras", "caption/list", "grid/spans", "plain/nested"} {
+		ti := -1
+		for i, tb := range govcC02Tables("k") {
+			if tb.name == name {
+				ti = i
+			}
+		}
+		if ti < 0 {
+			t.Errorf("GOVC-FAIL tabx/%s :: harness error: no such table kind", name)
+			continue
+		}
+		for k := range kinds {
+			ta := govcC02Tables("ta")[ti]
+			b := govcBlocks("b")[k]
+			fill := govcBlocks("f")
+			runTab(fmt.Sprintf("tabx/%s+%s", ta.name, b.name), []govcBlock{fill[0], ta, b, fill[1]}, ta)
+			runTab(fmt.Sprintf("tabx/%s+%s", b.name, ta.name), []govcBlock{fill[0], b, ta, fill[1]}, ta)
+		}
+	}
+	fmt.Printf("GOVC-CASES evaluations=%d distinct_nontrivial=%d rule=%s\n", evals, nontrivial, fmt.Sprintf("generated articles: every ordered pair of 19 block kinds between plain paragraphs, each kind alone, all kinds together; plus %d table shapes (10 ways of marking up the table: ARIA grid/treegrid/row/gridcell roles, th, thead+tbody+tfoot, caption, summary, none, presentation x 13 cell contents: plain, inline markup, paragraphs, lists, br, rowspan/colspan, hidden span, nested tables in 6 arrangements) x {between paragraphs, alone, two in a row, inside a div with inline text} and 8 of them crossed with every block kind in both orders; unique tokens per block; distinct by construction; Result.Text and text nodes of Result.Node checked; non-trivial = some text was extracted, for table cases: words of the table were extracted (measured: %d table cases emitted a <table> element, %d of them with a nested table)", nTab, asTable, asTableNested))
+}
+
+func govcC02HasElement(n *html.Node, tag string) bool {
+	if n.Type == html.ElementNode && n.Data == tag {
+		return true
+	}
+	for c := n.FirstChild; c != nil; c = c.NextSibling {
+		if govcC02HasElement(c, tag) {
+			return true
+		}
+	}
+	return false
+}
+
+// govcC02Tables builds one table per (markup, cell content) combination; tokens are prefixed by `pfx` and unique;
+// `visible` lists them in document order. Every table has a header row, three body rows of three columns and,
+// depending on the markup, a caption and a footer row; the special cell content sits in the body rows.
+func govcC02Tables(pfx string) []govcBlock {
+	n := 0
+	var vis []string
+	w := func(k int) string {
+		var r []string
+		for i := 0; i < k; i++ {
+			x := fmt.Sprintf("%sT%04d", pfx, n)
+			n++
+			r = append(r, x)
+			vis = append(vis, x)
+		}
+		return strings.Join(r, " ")
+	}
+	type markup struct {
+		name, tableAttr, trAttr, tdAttr string
+		th, sections, caption           bool
+	}
+	markups := []markup{
+		{name: "grid", tableAttr: ` role="grid"`},
+		{name: "treegrid", tableAttr: ` role="treegrid"`, th: true},
+		{name: "rowrole", trAttr: ` role="row"`},
+		{name: "gridcell", tdAttr: ` role="gridcell"`, caption: true},
+		{name: "th", th: true},
+		{name: "sections", th: true, sections: true},
+		{name: "caption", caption: true},
+		{name: "summary", tableAttr: ` summary="figures per region"`},
+		{name: "plain"},
+		{name: "presentation", tableAttr: ` role="presentation"`, th: true},
+	}
+	small := func() string { // a 2x2 table without any markup of its own
+		return "<table><tr><td>" + w(1) + "</td><td>" + w(1) + "</td></tr><tr><td>" + w(1) + "</td><td>" + w(1) + "</td></tr></table>"
+	}
+	type content struct {
+		name string
+		rows func(td func(string) string) []string // the three body rows (without <tr>)
+	}
+	plainRow := func(td func(string) string) string { return td(w(1)) + td(w(1)) + td(w(2)) }
+	mid := func(cell func() string) func(td func(string) string) []string { // special cell = 3rd cell of the 2nd row
+		return func(td func(string) string) []string {
+			r1 := plainRow(td)
+			r2 := td(w(1)) + td(w(1)) + td(cell())
+			return []string{r1, r2, plainRow(td)}
+		}
+	}
+	contents := []content{
+		{"plain", mid(func() string { return w(2) })},
+		{"inline", mid(func() string {
+			return w(1) + " <b>" + w(1) + " <i>" + w(1) + "</i></b> <a href=\"/t\">" + w(2) + "</a> <code>" + w(1) + "</code> <span>" + w(1) + "</span> " + w(1)
+		})},
+		{"paras", mid(func() string { return "<p>" + w(3) + "</p><p>" + w(3) + "</p>" })},
+		{"list", mid(func() string {
+			return w(1) + "<ul><li>" + w(2) + "</li><li>" + w(2) + "<ol><li>" + w(1) + "</li></ol></li></ul>"
+		})},
+		{"br", mid(func() string { return w(2) + "<br>" + w(2) + "<br><br>" + w(1) })},
+		{"hidden", mid(func() string {
+			s := w(2) + " <span style=\"display:none\">" + pfx + "Thidden</span> "
+			return s + w(2)
+		})},
+		{"spans", func(td func(string) string) []string {
+			r1 := strings.Replace(td(w(2)), "<td", "<td rowspan=\"2\"", 1) + strings.Replace(td(w(2)), "<td", "<td colspan=\"2\"", 1)
+			r2 := td(w(1)) + td(w(1))
+			return []string{r1, r2, strings.Replace(td(w(3)), "<td", "<td colspan=\"3\"", 1)}
+		}},
+		{"nested", mid(small)},
+		{"nested-text-around", mid(func() string { return w(2) + small() + w(2) })},
+		{"nested-head", mid(func() string {
+			return "<table><caption>" + w(2) + "</caption><thead><tr><th>" + w(1) + "</th><th>" + w(1) + "</th></tr></thead><tbody><tr><td>" + w(1) + "</td><td>" + w(1) + "</td></tr><tr><td>" + w(1) + "</td><td>" + w(1) + "</td></tr></tbody></table>"
+		})},
+		{"nested-deep", mid(func() string {
+			return "<table><tr><td>" + w(1) + "</td><td>" + small() + "</td></tr><tr><td>" + w(1) + "</td><td>" + w(1) + "</td></tr></table>"
+		})},
+		{"nested-two", func(td func(string) string) []string {
+			r1 := td(small()) + td(w(1)) + td(w(1))
+			r2 := plainRow(td)
+			return []string{r1, r2, td(w(1)) + td(w(1)) + td(small())}
+		}},
+		{"nested-in-para", mid(func() string { return "<p>" + w(2) + "</p>" + small() + "<p>" + w(2) + "</p>" })},
+	}
+	var bs []govcBlock
+	for _, m := range markups {
+		for _, c := range contents {
+			vis = nil
+			var sb strings.Builder
+			td := func(inner string) string { return "<td" + m.tdAttr + ">" + inner + "</td>" }
+			sb.WriteString("<table" + m.tableAttr + ">")
+			if m.caption {
+				sb.WriteString("<caption>" + w(2) + "</caption>")
+			}
+			hc := "td"
+			if m.th {
+				hc = "th"
+			}
+			if m.sections {
+				sb.WriteString("<thead>")
+			}
+			sb.WriteString("<tr" + m.trAttr + ">")
+			for i := 0; i < 3; i++ {
+				sb.WriteString("<" + hc + ">" + w(1) + "</" + hc + ">")
+			}
+			sb.WriteString("</tr>")
+			if m.sections {
+				sb.WriteString("</thead><tbody>")
+			}
+			for _, r := range c.rows(td) {
+				sb.WriteString("<tr" + m.trAttr + ">" + r + "</tr>")
+			}
+			if m.sections {
+				sb.WriteString("</tbody><tfoot><tr>" + td(w(1)) + td(w(1)) + td(w(1)) + "</tr></tfoot>")
+			}
+			sb.WriteString("</table>")
+			bs = append(bs, govcBlock{m.name + "/" + c.name, vis, sb.String()})
+		}
+	}
+	return bs
 }
 
 func govcNodeText(n *html.Node) string {
